@@ -66,8 +66,9 @@ OkCode(v) == CASE v = "DATA" -> 354 [] v = "QUIT" -> 221 [] v \in {"GREET", "STA
 OkChoice == [c |-> "ok", sh |-> "none"]
 EnvChoices == {OkChoice} \cup
               (IF env.budget > 0
-               THEN {[c |-> c, sh |-> IF c \in {"t4", "p5"} THEN s ELSE "none"] : c \in CLASSES \ {"mal", "refuse", "cstall"}, s \in SHAPES}
+               THEN {[c |-> c, sh |-> IF c \in {"t4", "p5"} THEN s ELSE "none"] : c \in CLASSES \ {"mal", "refuse", "cstall", "cwfail"}, s \in SHAPES}
                ELSE {})
+(* OP = "RawAuth": the smtp package used directly - NewClient, Auth (with its lazy EHLO), Quit *)
 DialFaults  == OP \notin {"Send", "Reset"}     \* in Send / Reset mode the dial is the clean prefix
 DialChoices == IF DialFaults THEN EnvChoices ELSE {OkChoice}
 
@@ -76,7 +77,7 @@ DialChoices == IF DialFaults THEN EnvChoices ELSE {OkChoice}
 AuthChoices == DialChoices \cup (IF DialFaults /\ env.budget > 0 /\ "mal" \in CLASSES /\ cl.mech # "XOAUTH2"
                                  THEN {[c |-> "mal", sh |-> "none"]} ELSE {})
 
-Lost(c) == c \in {"drop", "stall"}   \* the connection is unusable afterwards (a garbage line is just a bad reply)
+Lost(c) == c \in {"drop", "stall", "wfail"}   \* the connection is unusable afterwards (a garbage line is just a bad reply)
 
 (* what the client stores for a failed step *)
 ErrOf(reason, ch, k, rc) ==
@@ -129,13 +130,18 @@ XO(o0, v, mm, rr, params, cred, mech, ch, caps, okcode) ==
   LET ce == CmdEv(v, mm, rr, params, cred, mech)
       o1 == ImplicitDot(o0)
       code == IF ch.c = "ok" THEN okcode ELSE CodeOf(ch.c, env.nfault + 1)
-  IN [obs |-> ObsAll(o1, LogEvs(cred, 0) \o <<ce, ReplyEv(v, ch, env.nfault + 1, caps, okcode)>> \o LogReply(code, ch)),
+      key == ProjOf(o1, ce)
+      \* "wfail": the transport fails while the client writes this command - it is logged (before
+      \* the write) but never reaches the server
+      evs == IF ch.c = "wfail" THEN LogEvs(cred, 0) \o << [ev |-> "wfail"] >>
+             ELSE LogEvs(cred, 0) \o <<ce, ReplyEv(v, ch, env.nfault + 1, caps, okcode)>> \o LogReply(code, ch)
+  IN [obs |-> ObsAll(o1, evs),
       env |-> [env EXCEPT
-                 !.pred = Append(@, ProjOf(o1, ce)),
+                 !.pred = IF ch.c = "wfail" THEN @ ELSE Append(@, key),
                  !.budget = IF ch.c = "ok" THEN @ ELSE @ - 1,
                  !.nfault = IF ch.c = "ok" THEN @ ELSE @ + 1,
                  !.hist = IF ch.c = "ok" THEN @
-                          ELSE Append(@, [v |-> v, m |-> ProjOf(o1, ce).m, r |-> ProjOf(o1, ce).r, c |-> ch.c, sh |-> ch.sh])]]
+                          ELSE Append(@, [v |-> v, m |-> key.m, r |-> key.r, c |-> ch.c, sh |-> ch.sh])]]
 
 X(v, mm, rr, params, cred, mech, ch, caps, okcode) == XO(obs, v, mm, rr, params, cred, mech, ch, caps, okcode)
 Plain(v, mm, rr, params, ch) == X(v, mm, rr, params, FALSE, "", ch, <<>>, OkCode(v))
@@ -206,9 +212,10 @@ Init ==
 
 Goto(p) == cl' = [cl EXCEPT !.pc = p]
 DialOp  == IF OP \in {"Send", "Reset"} THEN "Dial" ELSE OP
+Raw     == OP = "RawAuth"
 
 (* a failed dial step: the transport is released before the error returns *)
-DialFail(o) == IF DEV_LeakOnDialError THEN o ELSE CloseConn(o)
+DialFail(o) == IF DEV_LeakOnDialError \/ Raw THEN o ELSE CloseConn(o)
 
 -----------------------------------------------------------------------------
 (* dial phase: client.go:1003 DialToSMTPClientWithContext                  *)
@@ -227,14 +234,14 @@ DialConnect ==
        /\ IF refused /\ ~(cfg.fallback /\ cfg.policy = "opportunistic")   \* SetTLSPortPolicy: 587, fallback 25 only when opportunistic
           THEN obs' = o0 /\ cl' = [cl EXCEPT !.pc = "dialRet", !.top = "dial", !.dead = TRUE]
           ELSE LET o1 == Observe(o0, [ev |-> "open"]) IN
-               IF DEV_NoDeadlineInDial THEN obs' = o1 /\ Goto("greeting")
+               IF DEV_NoDeadlineInDial \/ Raw THEN obs' = o1 /\ Goto("greeting")
                ELSE obs' = SetDl(o1, TRUE) /\ cl' = [cl EXCEPT !.pc = "greeting", !.armed = TRUE]
 
 (* smtp.NewClient reads the greeting and closes the connection itself when *)
 (* it is not a 220                                                         *)
 ReadGreeting ==
   /\ cl.pc = "greeting"
-  /\ \E ch \in DialChoices :
+  /\ \E ch \in {c \in DialChoices : c.c # "wfail"} :
        LET g == CASE ch.c = "drop" -> [ev |-> "drop"] [] ch.c = "stall" -> [ev |-> "stall"]
                   [] OTHER -> [ev |-> "greet", cls |-> ch.c, early |-> FALSE,
                                code |-> IF ch.c = "ok" THEN 220 ELSE CodeOf(ch.c, env.nfault + 1)] IN
@@ -274,7 +281,7 @@ CmdHelo ==
 PolicyDecision ==
   /\ cl.pc = "policy"
   /\ UNCHANGED <<env, cfg>>
-  /\ CASE cfg.policy = "none" -> Goto("authSel") /\ obs' = obs
+  /\ CASE cfg.policy = "none" \/ Raw -> Goto("authSel") /\ obs' = obs
        [] cfg.policy = "mandatory" /\ "STARTTLS" \notin cl.ext ->
               obs' = DialFail(obs) /\ cl' = [cl EXCEPT !.pc = "dialRet", !.top = "dial", !.dead = TRUE]
        [] cfg.policy = "opportunistic" /\ "STARTTLS" \notin cl.ext -> Goto("authSel") /\ obs' = obs
@@ -323,6 +330,7 @@ AuthSelect ==
          fail == obs' = DialFail(obs) /\ cl' = [cl EXCEPT !.pc = "dialRet", !.top = "dial", !.dead = TRUE]
          mch == IF t = "AUTODISCOVER" THEN Discover(cfg.authlist, cl.tls) ELSE MechOf(t) IN
      IF t = "NOAUTH" THEN Goto("dialOK") /\ obs' = obs
+     ELSE IF Raw THEN obs' = obs /\ cl' = [cl EXCEPT !.pc = "authStart", !.mech = MechOf(t)]   \* smtp.Client.Auth tests nothing
      ELSE IF "AUTH" \notin cl.ext \/ mch = "none" \/ ~Supported(mch, cfg.authlist) \/ (IsPlus(mch) /\ ~cl.tls)
      THEN fail
      ELSE obs' = obs /\ cl' = [cl EXCEPT !.pc = "authStart", !.mech = mch]
@@ -385,7 +393,7 @@ DialOK ==
   /\ UNCHANGED <<env, cfg>>
   /\ LET o1 == IF cl.armed THEN SetDl(obs, FALSE) ELSE obs IN      \* the dial deadline is cleared
      IF OP = "DialAndSend" THEN obs' = o1 /\ cl' = [cl EXCEPT !.pc = "sendBegin", !.armed = FALSE]
-     ELSE /\ obs' = Observe(o1, [ev |-> "ret", op |-> "Dial", err |-> FALSE, elapsed |-> "within"])
+     ELSE /\ obs' = Observe(o1, [ev |-> "ret", op |-> DialOp, err |-> FALSE, elapsed |-> "within"])
           /\ cl' = [cl EXCEPT !.pc = CASE OP = "Send" -> "sendBegin" [] OP = "Reset" -> "resetBegin" [] OTHER -> "quit",
                                !.armed = FALSE]
 
@@ -491,8 +499,14 @@ WriteContent ==
   /\ cl.pc = "content"
   /\ UNCHANGED cfg
   /\ IF cfg.rf[cl.m] = "ok"
-     THEN \E stalled \in (IF env.budget > 0 /\ "cstall" \in CLASSES THEN BOOLEAN ELSE {FALSE}) :
-          IF ~stalled THEN Goto("closeData") /\ obs' = obs /\ UNCHANGED env
+     THEN \E k \in {"ok"} \cup (IF env.budget > 0 THEN {"cstall", "cwfail"} \cap CLASSES ELSE {}) :
+          IF k = "ok" THEN Goto("closeData") /\ obs' = obs /\ UNCHANGED env
+          ELSE IF k = "cwfail"
+          THEN \* the transport fails while the content is written: nothing complete reaches the server
+               /\ env' = [env EXCEPT !.budget = @ - 1, !.nfault = @ + 1,
+                                      !.hist = Append(@, [v |-> "CONTENT", m |-> cl.m, r |-> 0, c |-> "cwfail", sh |-> "none"])]
+               /\ obs' = CloseConn(Observe(obs, [ev |-> "wfail"]))
+               /\ cl' = [cl EXCEPT !.se[cl.m] = LocalErr("writecontent"), !.pc = "nextMsg", !.dead = TRUE]
           ELSE \* the server stops reading in the middle of the content: the client's write must time out
                /\ env' = [env EXCEPT !.budget = @ - 1, !.nfault = @ + 1,
                                       !.hist = Append(@, [v |-> "CONTENT", m |-> cl.m, r |-> 0, c |-> "cstall", sh |-> "none"])]
@@ -507,7 +521,7 @@ WriteContent ==
 (* smtp.go:400 dataCloser.Close: "." and the reply to it *)
 CloseData ==
   /\ cl.pc = "closeData"
-  /\ \E ch \in EnvChoices :
+  /\ \E ch \in {c \in EnvChoices : c.c # "wfail"} :   \* a failing write of the content is class "cwfail"
        LET ee == [ev |-> "eod", m |-> cl.m, content |-> "complete"] IN
        /\ obs' = ObsAll(obs, <<ee, ReplyEv("EOD", ch, env.nfault + 1, <<>>, 250)>>)
        /\ env' = [env EXCEPT !.pred = Append(@, ProjOf(obs, ee)),
